@@ -126,7 +126,24 @@ func cmdRace(in string) error {
 		}
 		fs.arrive.Add(sc.Failing)
 		ap := app.NewApp()
-		rerr := ap.Run(app.LogLevel(syslog.LvPanic), app.SetComponents(append(comps, fs)...))
+		var rerr error
+		returned := make(chan struct{})
+		go func() {
+			rerr = ap.Run(app.LogLevel(syslog.LvPanic), app.SetComponents(append(comps, fs)...))
+			close(returned)
+		}()
+		select {
+		case <-returned:
+		case <-time.After(20 * time.Second):
+			// a start that never returns (e.g. a scanning phase that waits for a goroutine stuck on its error report) is an
+			// observation, not a harness timeout
+			out["ok"], out["hung"], out["inflight"], out["kept"] = false, true, 0, 0
+			fs.openHold()
+			break
+		}
+		if h, _ := out["hung"].(bool); h {
+			break
+		}
 		out["ok"] = rerr == nil
 		// scanner calls still in flight when Run returned (0 for a start-up that joins its scan phase) ...
 		out["inflight"] = atomic.LoadInt64(&fs.started) - atomic.LoadInt64(&fs.finished)
